@@ -744,3 +744,38 @@ def c07(chk):
     chk.assumptions += ["the claims types are crate-private: the way back goes through JwtCredentialValidator::verify_signature / "
                         "JwtPresentationValidator::validate with an accept-all JwsVerifier",
                         "absent custom claims and an empty custom-claims map are identified"]
+
+
+# ------------------------------------------------------------------------------------------------
+# C18 — JWK public projection, thumbprint, key-type coherence
+# ------------------------------------------------------------------------------------------------
+
+def flip_jwk_case(rows, k=3):
+    out = []
+    for r in rows:
+        if r["out"].get("obtainable") and r["out"].get("is_public") is True and r["row"]["origin"] == "from_json":
+            r = json.loads(json.dumps(r))
+            r["out"]["is_public"] = False
+            out.append(r)
+            if len(out) >= k:
+                break
+    if not out:
+        raise ToolError("canary: no public key row")
+    return out
+
+
+@plan("C18")
+def c18(chk):
+    chk.rule = ("TLC enumerates every JWK shape: parameter family EC/RSA/OKP/oct x every subset of its private members (all 128 "
+                "subsets of d,p,q,dp,dq,qi,oth for RSA) x every subset of the optional members use/key_ops/alg/kid/x5u x member "
+                "order x origin (from_json, from_params, new + set_params, set_kty) x declared key type equal / different, and "
+                "computes obtainability, is_public, existence of a public projection and whether a verification method may be "
+                "built. Each row is executed: kty always equals the carried parameter family; to_public has no private member, "
+                "keeps the public part, is idempotent; thumbprint unchanged by private part, optional members and order; "
+                "VerificationMethod::new_from_jwk and MethodBuilder refuse anything with a private member; generated keys and "
+                "generated documents are public-only.")
+    r = chk.mc("Jwk", "Jwk_%s.cfg" % chk.tier, workers=4, timeout=600, heap="3g")
+    chk.replay(r["cases_file"], timeout=3000)
+    chk.canary_cases(r["cases_file"], flip_jwk_case)
+    chk.assumptions += ["SHA-256 trusted; key material is syntactic (parameters are not checked to be points on a curve)",
+                        "set_params_unchecked is excluded (named unchecked)"]
